@@ -114,6 +114,12 @@ class FnTranslator:
                         and kw.get('loc', ast.Constant(0)).value == 0 and kw.get('scale', ast.Constant(1)).value == 1:
                     return ('call', 'zq', self.expr(n.args[0]))
                 raise TranslateError('norm.ppf with non-standard loc/scale')
+            if _is_np(f, 'where') and len(n.args) == 3 and not n.keywords and isinstance(n.args[0], ast.Call) \
+                    and (_is_np(n.args[0].func, 'less') or _is_np(n.args[0].func, 'greater')) and len(n.args[0].args) == 2:
+                a0, a1 = self.expr(n.args[0].args[0]), self.expr(n.args[0].args[1])
+                if _is_np(n.args[0].func, 'greater'):
+                    a0, a1 = a1, a0
+                return ('iflt', a0, a1, self.expr(n.args[1]), self.expr(n.args[2]))
             if _is_np(f, 'where') and len(n.args) == 3 and not n.keywords and self.row_bool:
                 c = n.args[0]
                 if (isinstance(c, ast.Compare) and len(c.ops) == 1 and isinstance(c.ops[0], ast.Eq)
@@ -253,6 +259,10 @@ def emit(e, dom):
         return '(if v_a then %s else %s)' % (emit(e[1], dom), emit(e[2], dom))
     if k == 'ifa0':
         return '(if v_a then %s else %s)' % (emit(e[2], dom), emit(e[1], dom))
+    if k == 'iflt':
+        if dom == 'Q':
+            return '(if Qlt_bool %s %s then %s else %s)' % tuple(emit(x, dom) for x in e[1:])
+        return '(if Rlt_dec %s %s then %s else %s)' % tuple(emit(x, dom) for x in e[1:])
     if k == 'invinf':
         x = emit(e[1], dom)
         if dom == 'Q':
@@ -275,6 +285,8 @@ def rational(e, irr):
         return False
     if k in ('ifa', 'ifa0'):
         return rational(e[1], irr) and rational(e[2], irr)
+    if k == 'iflt':
+        return all(rational(x, irr) for x in e[1:])
     if k == 'invinf':
         return rational(e[1], irr)
     raise TranslateError('rational %r' % (k,))
@@ -315,6 +327,8 @@ def evalf(e, env, zq):
         return evalf(e[1], env, zq) if env['__a'] else evalf(e[2], env, zq)
     if k == 'ifa0':
         return evalf(e[2], env, zq) if env['__a'] else evalf(e[1], env, zq)
+    if k == 'iflt':
+        return evalf(e[3], env, zq) if evalf(e[1], env, zq) < evalf(e[2], env, zq) else evalf(e[4], env, zq)
     if k == 'invinf':
         x = evalf(e[1], env, zq)
         return (1 / x) if x != 0 else float('inf')
